@@ -32,7 +32,9 @@ CLAIM = {
         "induction on the schedule), any type graph (self-/mutually recursive, shared sub-types): with recursion "
         "stubs compared by identity (the repaired FuncWrapper) an inductive invariant (safe_inv) shows that no "
         "loader is ever called while a stub reachable from it is unbound (no_unbound_call), that whatever is in "
-        "the loader cache stays callable later (cached_loaders_stay_callable), that every thread finishes within "
+        "the loader cache stays callable later (cached_loaders_stay_callable) and - under `typed` - computes the "
+        "unfolding of its type on data of any depth (cached_loaders_compute_the_unfolding), that a value a "
+        "loader returned is returned after every continuation of the schedule (returned_value_is_stable), that every thread finishes within "
         "3*len+6 of its own actions whatever the others do (every_thread_finishes: no deadlock; the only lock "
         "guards a straight-line section), and - for request programs passing the schedule-independent static "
         "check `typed`, evaluated by the driver for every explored graph - that every call returns the unfolding "
